@@ -64,6 +64,8 @@ _bits_lean_type = B.lean_type
 def lean_type(t) -> str:
     if t == "str":
         return "PyObj.Str"
+    if isinstance(t, tuple) and t[0] == "enumt":
+        return "Int"
     if isinstance(t, tuple) and t[0] == "opt":
         inner = lean_type(t[1])
         return f"Option {inner}" if " " not in inner else f"Option ({inner})"
@@ -87,14 +89,44 @@ def is_none_const(n):
     return isinstance(n, ast.Constant) and n.value is None
 
 
+def tenum_class_ok(cls):
+    """an Enum whose member values are unique (bool, int) pairs and that does not override __eq__ / __hash__ / __new__"""
+    import enum
+
+    if not (inspect.isclass(cls) and issubclass(cls, enum.Enum)):
+        return False
+    for k in cls.__mro__:
+        if k in (enum.Enum, object):
+            continue
+        if "__eq__" in k.__dict__ or "__hash__" in k.__dict__ or "__new__" in k.__dict__ and k is not cls:
+            return False
+    vals = [m.value for m in cls]
+    return bool(vals) and all(type(v) is tuple and len(v) == 2 and type(v[0]) is bool and type(v[1]) is int and v[1] >= 0
+                              for v in vals) and len(set(vals)) == len(vals)
+
+
 class OFn(B.BFn):
     """a function / method / constructor of the object-codec subset"""
 
     def __init__(self, unit, module, qualname, spec=None):
         self.consts = dict((spec or {}).get("consts", {}))
         self.sig_names = []
+        self.hidden_mutation = False
         super().__init__(unit, module, qualname, spec)
         self._substitute_consts()
+        if is_opt(self.ret) and not self.is_init:
+            last = self.node.body[-1]
+            if not isinstance(last, (ast.Return, ast.Raise)):
+                # falling off the end of a function returns None
+                r = ast.Return(value=ast.Constant(value=None))
+                ast.copy_location(r, last)
+                ast.copy_location(r.value, last)
+                self.node.body.append(r)
+
+    def class_type(self, obj):
+        if tenum_class_ok(obj) and obj.__name__ in self.unit.tenums:
+            return ("enumt", obj.__name__)
+        return super().class_type(obj)
 
     def _signature(self):
         a = self.node.args
@@ -178,7 +210,7 @@ class OTranslator(B.BTranslator):
         if cls is None:
             for f in self.u.fns:
                 for v in f.fn.__globals__.values():
-                    if inspect.isclass(v) and v.__name__ == name and B.enum_class_ok(v):
+                    if inspect.isclass(v) and v.__name__ == name and (B.enum_class_ok(v) or tenum_class_ok(v)):
                         self.u.enum_classes[name] = v
                         return v
         return cls
@@ -205,7 +237,7 @@ class OTranslator(B.BTranslator):
             return f"({var} != 0)", False
         if typ in ("bytes", "ilist", "nats", "str") or typ in BA:
             return f"(!({var}).isEmpty)", False
-        if isinstance(typ, tuple) and typ[0] == "enum":
+        if isinstance(typ, tuple) and typ[0] in ("enum", "enumt"):
             self.member_truthy_ok(typ[1], n)
             return "true", False
         if isinstance(typ, tuple) and typ[0] == "obj":
@@ -224,6 +256,13 @@ class OTranslator(B.BTranslator):
                 return f"PyObj.truthyOptM (fun v_ => do {inner}) {var}", True
             return f"(PyObj.truthyOpt (fun v_ => {inner}) {var})", False
         self.f.bad(n, f"truth value of {typ}")
+
+    opt_int_ok = False
+
+    def int_of(self, e, n):
+        if self.opt_int_ok and e.typ == ("opt", "int"):
+            return f"(← PyBits.unwrapT {e.val()})"  # int2ba(None, ...) is a TypeError
+        return super().int_of(e, n)
 
     def truthy(self, e, n):
         if e.typ in ("bool", "int", "bytes", "ilist", "nats") or e.typ in BA:
@@ -302,7 +341,44 @@ class OTranslator(B.BTranslator):
             self.f.bad(n, f"str literal {n.value!r} outside the places that take one")
         return super().e_Constant(n, env)
 
+    def tenum(self, name_node, env):
+        """the tuple-valued Enum class a bare name refers to (declared in the unit), or None"""
+        if isinstance(name_node, ast.Name) and name_node.id not in env:
+            cls = self.glob(name_node.id)
+            if tenum_class_ok(cls) and cls.__name__ in self.u.tenums:
+                return cls
+        return None
+
+    def tenum_index(self, cls, member, n):
+        info = self.u.tenums[cls.__name__]
+        if member not in info["order"]:
+            self.f.bad(n, f"member `{member}` of {cls.__name__} is not in the order declared for the value table")
+        if [m for m in cls.__members__] != list(info["order"]) and set(cls.__members__) != set(info["order"]):
+            self.f.bad(n, f"the members of {cls.__name__} are not the ones declared for the value table")
+        return info["order"].index(member)
+
+    def e_Attribute(self, n, env):
+        cls = self.tenum(n.value, env)
+        if cls is not None:
+            if n.attr not in cls.__members__:
+                self.f.bad(n, f"`{cls.__name__}.{n.attr}`")
+            self.u.enum_classes[cls.__name__] = cls
+            return Ex(f"({self.tenum_index(cls, n.attr, n)} : Int)", ("enumt", cls.__name__))
+        if n.attr == "value" and not (isinstance(n.value, ast.Name) and n.value.id not in env):
+            v = self.unwrap(self.expr(n.value, env))
+            if isinstance(v.typ, tuple) and v.typ[0] == "enumt":
+                info = self.u.tenums[v.typ[1]]
+                return Ex(f"PyObj.pairVal {info['vals']} {v.val()}", ("tuple", ("bool", "int")), True)
+        return super().e_Attribute(n, env)
+
     def e_BinOp(self, n, env):
+        if isinstance(n.op, ast.Add):
+            a = self.expr(n.left, env)
+            if a.typ == "bytes":
+                b = self.expr(n.right, env)
+                if b.typ == ("opt", "bytes"):
+                    # bytes + None is a TypeError, raised after both operands were evaluated
+                    return Ex(f"({a.val()} ++ (← PyBits.unwrapT {b.val()}))", "bytes")
         r = super().e_BinOp(n, env)
         if r.typ == "str":
             self.f.bad(n, "operator on str values")
@@ -353,9 +429,33 @@ class OTranslator(B.BTranslator):
             if not is_opt(x.typ):
                 self.f.bad(n, f"`is None` on a {x.typ}")
             return Ex(f"({x.val()}).isNone" if isinstance(n.ops[0], ast.Is) else f"({x.val()}).isSome", "bool")
+        if len(n.ops) == 1 and isinstance(n.ops[0], (ast.Eq, ast.NotEq)):
+            a = self.expr(n.left, env)
+            b = self.expr(n.comparators[0], env)
+            sym = "==" if isinstance(n.ops[0], ast.Eq) else "!="
+            kinds = ("enum", "enumt")
+            if isinstance(a.typ, tuple) and a.typ[0] == "enumt" and a.typ == b.typ:
+                return Ex(f"({a.val()} {sym} {b.val()})", "bool")
+            # Optional[E] against a member of E (None equals no member); Optional[int] against an int
+            if is_opt(a.typ) and a.typ[1] == b.typ and (b.typ == "int" or isinstance(b.typ, tuple) and b.typ[0] in kinds):
+                return Ex(f"({a.val()} {sym} some {b.val()})", "bool")
+            if is_opt(b.typ) and b.typ[1] == a.typ and (a.typ == "int" or isinstance(a.typ, tuple) and a.typ[0] in kinds):
+                return Ex(f"(some {a.val()} {sym} {b.val()})", "bool")
+        if len(n.ops) == 1 and isinstance(n.ops[0], (ast.Lt, ast.LtE, ast.Gt, ast.GtE)):
+            a = self.expr(n.left, env)
+            b = self.expr(n.comparators[0], env)
+            if a.typ == ("opt", "int") or b.typ == ("opt", "int"):
+                # an order comparison with None is a TypeError (raised after both operands were evaluated)
+                if a.typ == ("opt", "int"):
+                    if self.has_effects(b):
+                        self.f.bad(n, "order comparison of an Optional[int] with an operand that has effects")
+                    a = Ex(f"(← PyBits.unwrapT {a.val()})", "int")
+                if b.typ == ("opt", "int"):
+                    b = Ex(f"(← PyBits.unwrapT {b.val()})", "int")
+                return Ex(self.cmp1(n.ops[0], a, b, n), "bool")
         if len(n.ops) == 1 and isinstance(n.ops[0], (ast.In, ast.NotIn)) and isinstance(n.comparators[0], ast.Tuple):
             x = self.expr(n.left, env)
-            if isinstance(x.typ, tuple) and x.typ[0] == "enum":
+            if isinstance(x.typ, tuple) and x.typ[0] in ("enum", "enumt"):
                 # identity / equality with members of the same Enum (unique values, no __eq__ override): equality of the values
                 parts = []
                 xv = x.val()
@@ -423,7 +523,11 @@ class OTranslator(B.BTranslator):
             if name == "ba2int" and len(n.args) == 2:
                 return super().e_Call(self.strip_call(n, drop_pos_from=1), env)
             if name in ("ba2int", "int2ba") and any(k.arg == "signed" for k in n.keywords):
-                return super().e_Call(self.strip_call(n, drop_kw=("signed",)), env)
+                self.opt_int_ok = name == "int2ba"
+                try:
+                    return super().e_Call(self.strip_call(n, drop_kw=("signed",)), env)
+                finally:
+                    self.opt_int_ok = False
             if name == "bytes" and len(n.args) == 1 and not n.keywords and isinstance(n.args[0], ast.List) \
                     and len(n.args[0].elts) == 1 and self.glob("bytes") is None:
                 x = self.expr(n.args[0].elts[0], env)
@@ -431,6 +535,26 @@ class OTranslator(B.BTranslator):
                     # bytes([None]) is a TypeError ('NoneType' object cannot be interpreted as an integer)
                     return Ex(f"Py.toBytes [(← PyBits.unwrapT {x.val()})]", "bytes", True)
             obj = self.glob(name)
+            if tenum_class_ok(obj) and obj.__name__ in self.u.tenums and self.u.class_names.get(name) is None:
+                if len(n.args) != 1 or n.keywords or not (isinstance(n.args[0], ast.Tuple) and len(n.args[0].elts) == 2):
+                    self.f.bad(n, "call of a pair-valued Enum with something else than a literal pair")
+                c = self.expr(n.args[0].elts[0], env)
+                v = self.expr(n.args[0].elts[1], env)
+                if c.typ not in ("int", "bool") or v.typ not in ("int", "bool"):
+                    self.f.bad(n, f"pair-valued Enum call on ({c.typ}, {v.typ})")
+                info = self.u.tenums[obj.__name__]
+                self.u.enum_classes[obj.__name__] = obj
+                return Ex(f'PyObj.enumCallPair "{obj.__name__}" {info["graph"]} {self.int_of(c, n)} {self.int_of(v, n)}',
+                          ("enumt", obj.__name__), True)
+            if B.enum_class_ok(obj) and obj.__name__ in self.u.enums and self.u.enums[obj.__name__][0] == "V":
+                if len(n.args) != 1 or n.keywords:
+                    self.f.bad(n, "Enum call with other arguments than the value")
+                x = self.expr(n.args[0], env)
+                if x.typ not in ("int", "bool"):
+                    self.f.bad(n, f"Enum call on a {x.typ}")
+                self.u.enum_classes[obj.__name__] = obj
+                return Ex(f'PyObj.enumCallV "{obj.__name__}" {self.u.enums[obj.__name__][1]} {self.int_of(x, n)}',
+                          ("enum", obj.__name__), True)
             if B.enum_class_ok(obj) and obj.__name__ in self.u.enums:
                 if len(n.args) != 1 or n.keywords:
                     self.f.bad(n, "Enum call with other arguments than the value")
@@ -471,9 +595,17 @@ class OTranslator(B.BTranslator):
                             self.f.bad(n, "static method called through an expression with effects")
                         return self.call_variants(n, cands, env)
                     callee = cands[0]
+                    if callee.mutates_self and not (isinstance(recv, ast.Call) and self.returns_fresh(recv, env)):
+                        # the object is reachable from `self`: the caller's object CHANGES.  Translated only where nothing of this
+                        # function can observe that (inside the returned expression, no read of `self` after it); the definition
+                        # then gives the RETURN VALUE only, and no translated function may call it.
+                        if not self.hidden_ok(n, recv):
+                            self.f.bad(n, f"`{callee.qualname}` assigns attributes of an object that is not fresh")
+                        self.f.hidden_mutation = True
+                        v = self.unwrap(probe)
+                        args = self.call_args(n, callee, env)
+                        return Ex("PyObj.fst (" + " ".join([callee.lean_name, "ext", v.val()] + args) + ")", pt, True)
                     if callee.mutates_self:
-                        if not (isinstance(recv, ast.Call) and self.returns_fresh(recv, env)):
-                            self.f.bad(n, f"`{callee.qualname}` assigns attributes of its object; only allowed on a fresh object")
                         v = self.unwrap(probe)
                         args = self.call_args(n, callee, env)
                         return Ex("PyObj.fst (" + " ".join([callee.lean_name, "ext", v.val()] + args) + ")", pt, True)
@@ -484,6 +616,28 @@ class OTranslator(B.BTranslator):
                     if len(cands) > 1:
                         return self.call_variants(n, cands, env)
         return super().e_Call(n, env)
+
+    def hidden_ok(self, call, recv):
+        ret = getattr(self, "cur_return", None)
+        if ret is None or self.f.selfname is None:
+            return False
+        if not any(x is call for x in ast.walk(ret)):
+            return False
+        root = recv
+        while isinstance(root, ast.Attribute):
+            root = root.value
+        if not (isinstance(root, ast.Name) and root.id == self.f.selfname):
+            return False
+        pos = (root.lineno, root.col_offset)
+        for x in ast.walk(ret):
+            if isinstance(x, ast.Name) and x.id == self.f.selfname and (x.lineno, x.col_offset) > pos:
+                return False
+        return True
+
+    def call_translated(self, n, callee, env, selfarg=None):
+        if getattr(callee, "hidden_mutation", False):
+            self.f.bad(n, f"call of `{callee.qualname}`, whose translation does not show that it changes its object")
+        return super().call_translated(n, callee, env, selfarg)
 
     def returns_fresh(self, call, env):
         """does this call return an object nobody else holds: a constructor, or a translated function all of whose returns are
@@ -614,6 +768,8 @@ class OTranslator(B.BTranslator):
     def declare(self, name, e, env, ind, node, declared_type=None):
         if name in self.rename:
             self.f.bad(node, f"`{name}` is assigned again after it changed its static type")
+        if name in env and is_opt(env[name]) and (e.typ == "none" or e.typ == env[name][1]):
+            e = self.coerce(e, env[name], node, f"local `{name}`")
         if name in env and env[name] != e.typ and not (env[name] == "int" and e.typ == "bool") and "." not in name:
             if ind != 1:
                 self.f.bad(node, f"`{name}` changes its type from {env[name]} to {e.typ} inside a branch / loop")
@@ -636,6 +792,67 @@ class OTranslator(B.BTranslator):
         self.rename = {}
         return super().function()
 
+    def s_Return(self, s, env, ctx, ind):
+        self.cur_return = s.value
+        try:
+            if is_opt(self.f.ret) and ctx.kind == "func" and not self.f.is_init and not self.f.mutates_self_decl:
+                e = self.coerce(self.expr(s.value, env) if s.value is not None else Ex("()", "none"), self.f.ret, s, "return value")
+                return ["  " * ind + f"return {e.val()}"], env, False
+            return super().s_Return(s, env, ctx, ind)
+        finally:
+            self.cur_return = None
+
+    def s_Assign(self, s, env, ctx, ind):
+        t = s.targets[0] if len(s.targets) == 1 else None
+        if isinstance(t, ast.Tuple) and all(isinstance(x, ast.Name) for x in t.elts):
+            e = self.expr(s.value, env)
+            names = [x.id for x in t.elts]
+            if isinstance(e.typ, tuple) and e.typ[0] == "tuple" and len(e.typ[1]) == len(names) and len(set(names)) == len(names) \
+                    and any(nm in env and env[nm] != ty for nm, ty in zip(names, e.typ[1])):
+                # a component goes into a local of a wider (Optional) type: through temporaries, each assignment coerces
+                pad = "  " * ind
+                self.tmp += 1
+                tmps = [f"{mangle(x)}_{self.tmp}" for x in names]
+                ls = [f"{pad}let ({', '.join(tmps)}) {'←' if e.monadic else ':='} {e.text}"]
+                for nm, tmpn, ty in zip(names, tmps, e.typ[1]):
+                    l2, env = self.declare(nm, Ex(tmpn, ty), env, ind, s)
+                    ls += l2
+                return ls, env, True
+        return super().s_Assign(s, env, ctx, ind)
+
+    def as_ba(self, node, env):
+        """the right side of `bits += …`: a bitarray, or a list literal of bools / ints 0, 1 (each item is appended)"""
+        if isinstance(node, ast.List):
+            items = [self.expr(x, env) for x in node.elts]
+            if all(x.typ == "bool" for x in items):
+                return Ex("[" + ", ".join(x.val() for x in items) + "]", "ba")
+            if all(x.typ in ("bool", "int") for x in items):
+                return Ex("PyBits.baOfInts [" + ", ".join(self.int_of(x, node) for x in items) + "]", "ba", True)
+            self.f.bad(node, "bitarray += [...] of something else than ints / bools")
+        if isinstance(node, ast.IfExp):
+            st = self.static_test(node.test, env)
+            if st is not None:
+                return self.as_ba(node.body if st else node.orelse, env)
+            c = self.truthy(self.expr(node.test, env), node)
+            a, b = self.as_ba(node.body, env), self.as_ba(node.orelse, env)
+            t = a.typ if a.typ == b.typ else "bax"
+            return Ex(f"(if {c} then {self.branch(a)} else {self.branch(b)})", t, True)
+        x = self.expr(node, env)
+        if x.typ not in BA:
+            self.f.bad(node, f"bitarray += {x.typ}")
+        return x
+
+    def s_AugAssign(self, s, env, ctx, ind):
+        if isinstance(s.target, ast.Name) and env.get(s.target.id) in BA and isinstance(s.op, ast.Add) \
+                and isinstance(s.value, (ast.List, ast.IfExp)):
+            nm = s.target.id
+            if not self.fresh.get(nm, False):
+                self.f.bad(s, f"in-place += on `{nm}`, which may share its bitarray with another name")
+            x = self.as_ba(s.value, env)
+            # the container keeps its endianness (the left operand's); the new bits follow in index order
+            return ["  " * ind + f"{mangle(nm)} := {mangle(nm)} ++ {x.val()}"], env, True
+        return super().s_AugAssign(s, env, ctx, ind)
+
     def attr_store(self, s, target, value_node, env, ind, declared=None):
         if not (isinstance(target.value, ast.Name) and target.value.id == self.f.selfname):
             self.f.bad(s, "attribute assignment on something else than `self`")
@@ -652,13 +869,23 @@ class OTranslator(B.BTranslator):
         return super().attr_store(s, target, value_node, env, ind)
 
     def s_AnnAssign(self, s, env, ctx, ind):
-        if s.value is not None and isinstance(s.target, ast.Attribute):
-            declared = None
+        declared = None
+        if s.value is not None:
             try:
                 declared = self.f.ann(s.annotation)
             except Untranslatable:
                 declared = None
+        if s.value is not None and isinstance(s.target, ast.Attribute):
             return self.attr_store(s, s.target, s.value, env, ind, declared)
+        if s.value is not None and isinstance(s.target, ast.Name) and declared is not None and is_opt(declared) \
+                and s.target.id not in env:
+            # a local declared Optional[T]: that is its static type, whatever T / None value it starts with
+            x = self.expr(s.value, env)
+            if x.typ == "none" or x.typ == declared[1] or x.typ == declared:
+                x = self.coerce(x, declared, s, f"local `{s.target.id}`")
+                self.fresh[s.target.id] = False
+                ls, env = self.declare(s.target.id, x, env, ind, s)
+                return ls, env, True
         return super().s_AnnAssign(s, env, ctx, ind)
 
     def s_Expr(self, s, env, ctx, ind):
@@ -675,8 +902,10 @@ class ObjUnit(B.BitsUnit):
     enums: {Enum class name: (Lean name of the member values : List Nat, Lean name of the call graph : List (Option Nat))};
     externals: like py2lean_bits, plus names=[parameter names] and consts={name: value} for keyword calls"""
 
-    def __init__(self, name, functions, classes=(), externals=None, enums=None, imports=(), plugin="extract_transl_obj.py"):
+    def __init__(self, name, functions, classes=(), externals=None, enums=None, imports=(), plugin="extract_transl_obj.py",
+                 tenums=None):
         self.name = name
+        self.tenums = dict(tenums or {})
         self.fuel = {}
         self.consts = {}
         self.done = []
@@ -733,6 +962,8 @@ class ObjUnit(B.BitsUnit):
         return self.enum_classes.get(t[1])
 
     def pyval_fn(self, t):
+        if isinstance(t, tuple) and t[0] == "enumt":
+            return f'(.enum "{t[1]}")'
         if t == "str":
             return "(fun s => .bytes s.utf8)"
         if isinstance(t, tuple) and t[0] == "opt":
@@ -806,14 +1037,27 @@ class ObjUnit(B.BitsUnit):
             out.append(f"/-- {where} -/")
             out.append(f"def {nm} : {lean_type(typ)} := {txt}")
             out.append("")
+        for nm, info in self.tenums.items():
+            cls = self.enum_classes.get(nm)
+            if cls is None:
+                continue
+            vals = ", ".join(f"({'true' if cls[m].value[0] else 'false'}, {cls[m].value[1]})" for m in info["order"])
+            out.append(f"/-- member number = position in this order ({', '.join(info['order'])}): the value table of `{nm}` the translation")
+            out.append("indexes is the one the live class has in that order -/")
+            out.append(f"theorem {nm}_order : {info['vals']} = [{vals}] := by decide")
+            out.append("")
         for g in self.fns:
+            if g.hidden_mutation:
+                texts[g] = texts[g].replace(" -/\n", " — NOTE: a call inside changes an object reachable from `self` (Python mutates it in place);"
+                                            " this definition gives the RETURN VALUE only and is never called by translated code -/\n", 1)
             out.append(texts[g])
         out.append(f"end Dmr.Transl.{self.name}")
         return "\n".join(out) + "\n"
 
 
-def translate_unit(name, functions, classes=(), externals=None, enums=None, imports=(), header="", plugin="extract_transl_obj.py") -> str:
-    return ObjUnit(name, functions, classes, externals, enums, imports, plugin).render(header)
+def translate_unit(name, functions, classes=(), externals=None, enums=None, imports=(), header="", plugin="extract_transl_obj.py",
+                   tenums=None) -> str:
+    return ObjUnit(name, functions, classes, externals, enums, imports, plugin, tenums).render(header)
 
 
 if __name__ == "__main__":
